@@ -14,7 +14,9 @@
 (* Actions = bucket mutations and the calls that must not mutate:          *)
 (*   SaveBegin (assert writable, encode)  PutFull  PutMeta  Crash          *)
 (*   ResaveBegin (a stored recording is fetched and saved again under the  *)
-(*   same id)   Reject (the bucket refuses the pending put: nothing is     *)
+(*   same id)   ResaveHeld (a recording object saved before is handed to   *)
+(*   save again, unchanged)   Reuse (the cassette object is used again     *)
+(*   after close())   Reject (the bucket refuses the pending put: nothing is*)
 (*   written, the save raises, the cassette object lives on)               *)
 (*   RoAttempt (create/save on a read-only cassette: AssertionError)       *)
 (*   CloseDelFull  CloseDelMeta  (transient, writable close: two prefix    *)
@@ -27,7 +29,7 @@ CONSTANTS Cass,       \* set of cassette names
           CassDef,    \* [Cass -> [ro, transient, prefix]]  prefix: sequence of characters, <<>> = default
           Cats,       \* categories: sequences of characters
           MaxSaves,
-          MaxResaves, \* how many times a stored recording may be saved again (0: never)
+          MaxResaves, \* budget of "again" steps: a stored / a held recording is saved again, a closed cassette is used again
           Rejects,    \* BOOLEAN: may the bucket refuse a put (service error)?
           PutOrder,   \* "full-first" (the design) or "meta-first"
           DeleteWhole \* FALSE (the design: delete .../full/ and .../metadata/) or TRUE (delete the whole key prefix)
@@ -78,6 +80,32 @@ ResaveBegin(c, id) ==
     /\ nres' = nres + 1
     /\ inflight' = [inflight EXCEPT ![c] = [id |-> id, stage |-> "encoded"]]
     /\ ev' = [Ev0 EXCEPT !.kind = "resavebegin", !.c = c, !.id = id]
+    /\ UNCHANGED <<bucket, log, closing, closeFrom, nid>>
+
+\* close() leaves the cassette object usable (a context-manager exit, or close() between two phases of a service): it is
+\* used again afterwards
+Reuse(c) ==
+    /\ Writable(c) /\ closing[c] = "done" /\ nres < MaxResaves
+    \* (completeness of what is discoverable is claimed for saves, not for a clean-up racing with another cassette's save
+    \* under the same prefix: the cassette is used again once that prefix is quiet and holds no half-deleted leftovers)
+    /\ \A d \in Cass : (Root(d) = Root(c) /\ d # c) => inflight[d].stage = "none"
+    /\ \A k \in bucket : IsPrefix(Root(c) \o <<"M">>, k) => (Root(c) \o <<"F">> \o SubSeq(k, Len(Root(c)) + 2, Len(k))) \in bucket
+    /\ closing' = [closing EXCEPT ![c] = "no"]
+    /\ nres' = nres + 1
+    /\ ev' = [Ev0 EXCEPT !.kind = "reuse", !.c = c]
+    /\ UNCHANGED <<bucket, inflight, log, closeFrom, nid>>
+
+\* a recording object this cassette saved before, still held by the caller, is handed to save_recording again - unchanged,
+\* and whether or not the bucket still has it (a transient close may have removed it meanwhile)
+HeldIds(c) == { SubSeq(log[i].key, Len(Root(c)) + 2, Len(log[i].key)) :
+                    i \in {j \in 1 .. Len(log) : log[j].c = c /\ log[j].op = "put"} }
+ResaveHeld(c, id) ==
+    /\ Writable(c) /\ inflight[c].stage = "none" /\ closing[c] = "no" /\ nres < MaxResaves
+    /\ id \in HeldIds(c)
+    /\ \A d \in Cass : Root(d) = Root(c) => closing[d] = "no" /\ inflight[d].stage = "none"
+    /\ nres' = nres + 1
+    /\ inflight' = [inflight EXCEPT ![c] = [id |-> id, stage |-> "encoded"]]
+    /\ ev' = [Ev0 EXCEPT !.kind = "resaveheld", !.c = c, !.id = id]
     /\ UNCHANGED <<bucket, log, closing, closeFrom, nid>>
 
 Put(c, k, stage) ==
@@ -138,6 +166,8 @@ CloseNoop(c) == /\ (CassDef[c].ro \/ ~CassDef[c].transient) /\ closing[c] = "no"
 Next == \E c \in Cass :
            \/ \E cat \in Cats : SaveBegin(c, cat)
            \/ \E id \in StoredIds(c) : ResaveBegin(c, id)
+           \/ \E id \in HeldIds(c) : ResaveHeld(c, id)
+           \/ Reuse(c)
            \/ Put1(c) \/ Put2(c) \/ Crash(c) \/ Reject(c) \/ RoAttempt(c)
            \/ CloseDel1(c) \/ CloseDel2(c) \/ CloseNoop(c)
 Spec == Init /\ [][Next]_vars
